@@ -367,12 +367,15 @@ void dispatch(const Desc& d)
     Rng r((uint64_t) d.i("seed", 1) * 173 + 11);
     const int rounds = (int) d.i("rounds", 3);
     const int tcounts[4] = {2, 4, 8, 16};
-    for (int round = 0; round < rounds; round++)
+    // two extra rounds after the scheduled ones: Lanczos solvers (dense / sparse product wrapper), private operators, breakdown-heavy jobs of
+    // very different sizes in one round - hidden state whose value depends on n and is fixed by whichever solver comes first shows there
+    for (int round = 0; round < rounds + 2; round++)
     {
-        const int T = tcounts[round % 4];
-        const int shared = (round % 2);          // odd rounds: all threads share ONE const product wrapper
-        const int kind = (round / 2) % 6;
-        const int variant = (round % 3 == 2) ? 1 : ((round % 6 == 3) ? 2 : 0);
+        const bool extra = round >= rounds;
+        const int T = extra ? 6 : tcounts[round % 4];
+        const int shared = extra ? 0 : (round % 2);          // odd rounds: all threads share ONE const product wrapper
+        const int kind = extra ? ((round - rounds) ? 2 : 0) : (round / 2) % 6;
+        const int variant = extra ? 1 : ((round % 3 == 2) ? 1 : ((round % 6 == 3) ? 2 : 0));
         std::vector<Job> jobs;
         if (shared)
         {
